@@ -35,6 +35,9 @@ def make_cases(tier, rng):
         cases.append({"name": "l%d" % len(cases), "proto": p, "tls": "", "launch": rng.choice(["cmd", "runner"]), "ops": [op] + [rng.choice(OPS)]})
     cases.append({"name": "l%d" % len(cases), "proto": "grpc", "tls": "", "launch": "cmd", "ops": ["raw_accept_reuse", "broker_p2h"]})
     cases.append({"name": "l%d" % len(cases), "proto": "grpc", "tls": "", "launch": "cmd", "ops": ["raw_accept_closed", rng.choice(["broker_p2h", "dispense"])]})
+    # the plugin is ended by another client (reattached), this one sees it exit and is killed afterwards
+    for p_ in ["grpc", "netrpc"]:
+        cases.append({"name": "l%d" % len(cases), "proto": p_, "tls": "", "launch": "cmd", "ops": ["broker_p2h", "dispense", "broker_h2p"], "killed_by_other": True})
     # calls whose peer never comes (not with multiplexing, where gRPC keeps re-dialling for a while)
     for p in ["netrpc", "grpc"]:
         for _ in range(1 if tier == "quick" else 4):
